@@ -211,11 +211,14 @@ class ChangeScenario(Scenario):
 
     def _with_subs(self, env: Env, hid: str, fn: Any, subs: list[dict]) -> Any:
         async def parent(**kw: Any) -> Any:
+            items = (kw.get('spec') or {}).get('items') or []
             for s in subs:
+                if 'when_item' in s and s['when_item'] not in items:
+                    continue    # one sub-handler per item of a list in the spec: the set of sub-handlers follows the object
                 sfn = scripted(env, f"{hid}/{s['id']}", parse_script(s.get('script', ['ok'])))
                 if s.get('subs'):      # sub-handlers nest to any depth
                     sfn = self._with_subs(env, f"{hid}/{s['id']}", sfn, s['subs'])
-                opts = {k: v for k, v in s.items() if k not in ('id', 'script', 'subs')}
+                opts = {k: v for k, v in s.items() if k not in ('id', 'script', 'subs', 'when_item')}
                 if isinstance(opts.get('errors'), str):
                     opts['errors'] = getattr(kopf.ErrorsMode, opts['errors'])
                 kopf.subhandler(id=s['id'], **opts)(sfn)
